@@ -156,6 +156,8 @@ pub enum KeyTy {
     I32,
     Bool,
     Char,
+    /// `Gk<String>`: a user key type that is generic over a path-qualified type and parses like `u8`
+    Gen,
 }
 
 impl KeyTy {
@@ -166,6 +168,7 @@ impl KeyTy {
             KeyTy::I32 => "i32",
             KeyTy::Bool => "bool",
             KeyTy::Char => "char",
+            KeyTy::Gen => "Gk<String>",
         }
     }
 }
@@ -266,6 +269,9 @@ pub struct FieldSpec {
     /// `Some(..)`), so the field is *spelled* like an optional one although its intermediate type
     /// decides what the payload may hold
     pub conv_opt_decl: bool,
+    /// with a conversion: the declared type of the field is the intermediate type itself (`P<u8>`),
+    /// the function maps `P<u8>` to `P<u8>`
+    pub conv_same_decl: bool,
 }
 
 impl FieldSpec {
@@ -283,6 +289,7 @@ impl FieldSpec {
             err_b: false,
             serde_rename: None,
             conv_opt_decl: false,
+            conv_same_decl: false,
         }
     }
     pub fn has_default(&self) -> bool {
